@@ -46,7 +46,7 @@ def replay_sstream(ws, pid, unit_, job_, rec, failed, report):
     for ob in failed[:2]:
         inp = ob.get('inputs', {})
         A = num(inp.get('a0_size', inp.get('s0_size', 0))); B = num(inp.get('m0_size', 0)); N = num(inp.get('n', inp.get('add', inp.get('k', 0))))
-        tries = [(A, B, N)] + [(a, b, n) for a in (0, 200, 300, 1000) for b in (0, 5, 300) for n in (1, 100, 600)]     # then the size classes around the 256-byte limit and the doubling steps
+        tries = [(A, B, N)] + [(a, b, n) for a in (0, 200, 300, 1000) for b in (0, 5, 300) for n in (1, 100, 400, 600)]     # then the size classes around the 256-byte limit and the doubling steps
         for (a, b, n) in tries:
             args = ['op=' + op, 'A=%d' % a, 'B=%d' % b, 'N=%d' % n] + (['FAIL_AT=1'] if fault else [])
             out = native_replay(ws, 'sstream.cpp', args, report, timeout=30)
